@@ -332,6 +332,8 @@ def run_read1(sec, mnemonic):
 
 
 def check_point(pt):
+    from ..core import inputs
+    inputs.process_prelude()   # the points are explored in a process that has already read many other files
     kind = pt[0]
     if kind == "read1":
         vio, n, nt = run_read1(pt[1], pt[2])
